@@ -44,12 +44,11 @@ Theorem C07_exact_blocks_chunked_eq_whole :
 Proof. exact exact_window_eq_whole. Qed.
 Print Assumptions C07_exact_blocks_chunked_eq_whole.
 
-(* bounded supplement (vm_compute) for the REAL heuristic: every target layout x every chunking x
-   max_distance in {1, 3/2, 2} on every grid up to 3x3 (unit cells, EUCLIDEAN): chunked = whole
-   (distance key and remembered target of every cell) *)
+(* bounded supplement (vm_compute) for the REAL heuristic: every target layout x every chunking on every
+   grid up to 3x3 (unit cells, EUCLIDEAN) with max_distance = 1, and with max_distance in {3/2, 2} on the grids
+   with at most 6 cells ([small_domain]): chunked = whole (distance key and remembered target of every cell) *)
 Theorem C07_bounded_chunked_eq_whole_small :
-  forall s m img, In s small_shapes -> In m small_md -> In img (shape_layouts s) ->
-  chunked_eq_whole_at s m img = true.
+  forall p img, In p small_domain -> In img (dom_layouts p) -> chunked_eq_whole_dom p img = true.
 Proof. exact chunked_eq_whole_small. Qed.
 Print Assumptions C07_bounded_chunked_eq_whole_small.
 
